@@ -62,35 +62,38 @@ Theorem C13_fail_none :
       = (AFail o, mkDb (d_journal c ++ map snd (journal es)) t', None, tr).
 Proof. exact (apply_loop_none_single hash hash_eqb HS). Qed.
 
-(** Fix and re-run. Setting: directory [dir] (files strictly sorted by version,
-    no checkpoint file, no txmode directive; any file may carry a failing
-    statement [tf_bad]); [c0] a file boundary ([Bd], e.g. the empty database);
+(** Fix and re-run. Setting: the directory is [dskip ++ dir], files strictly
+    sorted by version; [dir] = the directory from its last checkpoint file on;
+    any file may carry a failing statement [tf_bad] and a txmode directive the
+    global mode [g] accepts ([valid]); [c0] is a file boundary ([Bd], e.g. the
+    empty database) whose revision rows are literally completed revisions ([LK]);
     the command fails on a statement ([AFail OStmtErr]) in any mode, with any
-    count. [fixed dir] = the same files with no failing statement. Then
-    `migrate apply` on the fixed directory from the state the failure left, and
-    the same command from [c0] (the run without failure), both succeed and end
-    in a completed state -- every statement's effect exactly once, in plan
-    order, every revision Applied = Total = statement count -- with equal
-    journals. (Equality of the revision rows beyond version/Applied/Total --
-    cleared partial hashes and error flag -- is compared by the tie and the
-    oracle, not proved.) *)
+    count. [fixed dir] = the same files with no failing statement. Then `migrate
+    apply` on the fixed directory from the state the failure left, and the same
+    command from [c0] (the run without failure), both succeed and end in
+    LITERALLY THE SAME STATE [final_db]: journal = every statement exactly once in
+    plan order; one revision row per file with Applied = Total = statement count,
+    no partial hashes, no error, type "execute". *)
 Theorem C13_fix_rerun :
   (forall a b, hash_eqb a b = true <-> a = b) ->
-  forall (dir : list tfile),
-  sorted_files (map tf_file dir) -> (forall f, In f (map tf_file dir) -> f_ckpt f = false) ->
-  no_directive dir ->
-  forall global (c0 : db hash) k0 n o c1 tr,
-  Bd hash HS dir c0 k0 ->
-  apply_run hash hash_eqb HS global n dir c0 = (o, c1, tr) -> o = AFail OStmtErr ->
+  forall (dskip dir : list tfile),
+  sorted_files (map tf_file dskip ++ map tf_file dir) ->
+  from_last_ckpt (map tf_file dskip ++ map tf_file dir) = map tf_file dir ->
+  forall g (c0 : db hash) k0 n o c1 tr,
+  valid g dir -> Bd hash HS dir c0 k0 -> LK hash dir (d_tbl c0) k0 ->
+  apply_run hash hash_eqb HS g n (dskip ++ dir) c0 = (o, c1, tr) -> o = AFail OStmtErr ->
   exists o2 c2 tr2 o3 c3 tr3,
-    apply_run hash hash_eqb HS global 0 (fixed dir) c1 = (o2, c2, tr2) /\
+    apply_run hash hash_eqb HS g 0 (dskip ++ fixed dir) c1 = (o2, c2, tr2) /\
     (o2 = ADone \/ o2 = APend PNoPending) /\
-    apply_run hash hash_eqb HS global 0 (fixed dir) c0 = (o3, c3, tr3) /\
+    apply_run hash hash_eqb HS g 0 (dskip ++ fixed dir) c0 = (o3, c3, tr3) /\
     (o3 = ADone \/ o3 = APend PNoPending) /\
-    completed hash dir c2 /\ completed hash dir c3 /\ d_journal c2 = d_journal c3.
+    c2 = c3 /\
+    c2 = mkDb (map snd (plan (map tf_file dir)))
+              (map (fun f => mkRev (f_version f) (length (f_stmts f)) (length (f_stmts f)) [] false 2%N)
+                   (map tf_file dir)).
 Proof.
-  intros Hspec dir Hs Hn Hd global c0 k0 n o c1 tr.
-  exact (fix_rerun_lemma hash hash_eqb HS Hspec dir Hs Hn Hd global c0 k0 n o c1 tr).
+  intros Hspec dskip dir Hs Hf g c0 k0 n o c1 tr.
+  exact (fix_rerun_lemma hash hash_eqb HS Hspec dskip dir Hs Hf g c0 k0 n o c1 tr).
 Qed.
 
 (** ** --dry-run changes nothing -- except ...
@@ -235,11 +238,15 @@ Example C13_fix_rerun_nonvacuous :
     match o, o2 with
     | AFail OStmtErr, ADone =>
         bytes_eqb (concat (d_journal c2)) (concat [s 1; s 2; s 3; s 4]) && (length (d_journal c2) =? 4) &&
-        forallb (fun r => (r_applied r =? r_total r) && negb (r_err r)) (d_tbl c2)
+        forallb (fun r => (r_applied r =? r_total r) && negb (r_err r) && (length (r_hashes r) =? 0)) (d_tbl c2)
     | _, _ => false
     end) [TxNone; TxFile; TxAll] = true /\
-  Bd bytes (fun b => b) ex_dir ex_db0 0.
-Proof. split; [vm_compute; reflexivity|apply Bd_empty]. Qed.
+  Bd bytes (fun b => b) ex_dir ex_db0 0 /\ LK bytes ex_dir (d_tbl ex_db0) 0 /\
+  valid TxNone ex_dir /\ valid TxFile ex_dir /\ valid TxAll ex_dir.
+Proof.
+  split; [vm_compute; reflexivity|]. split; [apply Bd_empty|]. split; [apply LK_empty|].
+  repeat split; intros f [<-|[<-|[]]]; discriminate.
+Qed.
 
 (** dry run on a database with history: something would be executed (file 2 is
     pending), nothing changes. *)
